@@ -292,6 +292,19 @@ fn gen_script(rng: &mut Rng, id: String) -> GenScript {
     GenScript { ops, sleep, id, racy, kind }
 }
 
+/// a request whose handler sleeps 333 ms, abandoned by the caller 100 ms after it was sent
+fn abandon_mid_handler_script(rng: &mut Rng, id: String) -> GenScript {
+    let body = rng.rbytes(200);
+    let full = request_bytes(&id, 333, &body, None);
+    let mut ops = chunks(rng, &full);
+    ops.push(ScriptOp::Fin);
+    ops.push(ScriptOp::Wait(100));
+    ops.push(ScriptOp::Stop);
+    ops.push(ScriptOp::Reset);
+    ops.push(ScriptOp::Wait(400));
+    GenScript { ops, sleep: 333, id, racy: false, kind: "abandon-while-handling" }
+}
+
 fn lifecycle_str(l: Option<(u64, u64, u64)>) -> (u64, &'static str) {
     match l {
         None => (0, "none"),
@@ -308,6 +321,15 @@ fn session(run: &mut Run, rng: &mut Rng, idx: u64, nscripts: usize) -> anyhow::R
     let scripts: Vec<GenScript> = (0..nscripts).map(|i| gen_script(&mut lrng, format!("s{idx}-{i}"))).collect();
     let noise: Vec<u64> = (0..nscripts).map(|_| lrng.below(7)).collect();
     let variant: u64 = if idx < 1000 { [0, 1, 0, 2][(idx % 4) as usize] } else { 0 };
+    let mut scripts = scripts;
+    if variant == 2 {
+        // behind the in-flight limit: make sure several calls are abandoned while their handler runs
+        for i in [0usize, 2, 3, 5] {
+            if i < scripts.len() {
+                scripts[i] = abandon_mid_handler_script(&mut lrng, format!("s{idx}-{i}"));
+            }
+        }
+    }
     run.count("serving-side", ["plain", "concurrency-limit-1", "inflight-limit-2-block"][variant as usize]);
     let rt = paused_rt();
     struct Obs {
